@@ -128,7 +128,7 @@ func HarnessC07Step() {
 	rm := refShape(verifParam("N", 4))
 	v := rm.view()
 	c := &lightClient{stump: rm.stump()}
-	c.held = refPickMask("held", rm.liveSlots())
+	c.held = refPickCombo("held", rm.liveSlots(), verifParam("H", 64))
 	c.canonical(rm, v)
 	b := rm.refBlock(v, verifParam("D", 2), verifParam("A", 2))
 	rem := c07Remember(len(b.adds))
